@@ -50,7 +50,11 @@ pub fn compare(before: &Sources, after: &Sources, steps: &[&str], r: &mut CaseRe
         }
         Ok(Ok(d1)) => {
             if let Err(diff) = equivalent(&d1, &d0) {
-                r.fail(Failure::new(format!("c05:document-changes:{}", steps.last().copied().unwrap_or("")), format!("after {steps:?}: {diff}")));
+                // The signature names the last rewrite and the place of the first difference.
+                let path = diff.split(": ").next().unwrap_or("");
+                let missing_key = diff[path.len()..].split('`').nth(1);
+                let leaf = missing_key.or_else(|| path.rsplit('/').find(|s| !s.is_empty() && !s.chars().all(|c| c.is_ascii_digit()))).unwrap_or("");
+                r.fail(Failure::new(format!("c05:document-changes:{}:{leaf}", steps.last().copied().unwrap_or("")), format!("after {steps:?}: {diff}")));
             }
         }
     }
@@ -87,6 +91,20 @@ fn rec_over_parameter(sources: &Sources) -> bool {
         }
     }
     false
+}
+
+/// Structural precondition of the known finding F19: the rewrites introduced a parameterless
+/// declaration that is recursive in the rewritten program and whose body is an annotated terminal.
+fn f19_site(before: &Program, after: &Program) -> bool {
+    let fresh_from = before.binders.len();
+    let recursive = analyse_cycles(after).recursive;
+    after.decls().any(|(_, d)| {
+        let mut body = &d.body;
+        while let E::Paren(inner) = body {
+            body = inner;
+        }
+        d.params.is_empty() && recursive.contains(&d.id) && matches!(body, E::Ann(..)) && d.id >= fresh_from
+    })
 }
 
 impl Property for C05 {
@@ -168,6 +186,13 @@ impl Property for C05 {
         // use (same rec node, same scope): the rewritten program is then in the X4 class itself.
         if order_dependent(&p2) != Some(false) {
             r.label("excluded:X4-after-rewrite");
+            r.hash = before.hash64();
+            return r;
+        }
+        // Known finding F19: a freshly named annotated expression that lands on a cycle becomes a
+        // reference declaration, whose uses no longer see the annotations written on its body.
+        if f19_site(&prog, &p2) {
+            r.label("excluded:F19-named-annotated-expression-becomes-recursive");
             r.hash = before.hash64();
             return r;
         }
